@@ -209,6 +209,18 @@ def parseLines (env : Env) : List Str → List Suppr → Option LineErr × List 
 def parseFile (env : Env) (l : List Suppr) (data : Str) : Option LineErr × List Suppr :=
   parseLines env (splitOn '\n' (data.map fun c => if c = '\r' then '\n' else c)) l
 
+/-- adding already parsed suppressions one after the other, stopping at the first rejection (what `parseFile` does
+    with the results of `parseLine`) -/
+def addSeq : List Suppr → List Suppr → Option LineErr × List Suppr
+  | [], l => (none, l)
+  | s :: r, l =>
+    match addSuppression l s with
+    | (.ok, l') => addSeq r l'
+    | (e, l') => (some (.add e), l')
+
+/-- a suppressions file with one printed suppression per line -/
+def fileOf (ss : List Suppr) : Str := (ss.map fun s => toString s ++ ['\n']).flatten
+
 /-! ### parseXmlFile (after tinyxml2: a list of child elements of the root, each a list of (name, text)) -/
 
 inductive XmlErr
@@ -267,6 +279,26 @@ def parseXml (env : Env) : List (Str × List (Str × Str)) → List Suppr → Op
         match addSuppression l s with
         | (.ok, l') => parseXml env r l'
         | (e, l') => (some (.add e), l')
+
+/-- the child elements `<id>`, `<fileName>`, `<lineNumber>`, `<symbolName>` written for a suppression (manual, §XML
+    suppressions); absent fields are omitted -/
+def xmlOf (s : Suppr) : List (Str × Str) :=
+  [("id".toList, s.errorId)] ++
+  (if s.fileName.isEmpty then [] else [("fileName".toList, s.fileName)]) ++
+  (if s.lineNumber = -1 then [] else [("lineNumber".toList, intToDec s.lineNumber)]) ++
+  (if s.symbolName.isEmpty then [] else [("symbolName".toList, s.symbolName)])
+
+/-- the fields an XML `<suppress>` element carries -/
+def xmlFieldsOf (env : Env) (s : Suppr) : Suppr :=
+  { errorId := s.errorId, fileName := if s.fileName.isEmpty then [] else env.simplify s.fileName,
+    lineNumber := s.lineNumber, symbolName := s.symbolName }
+
+def addSeqX : List Suppr → List Suppr → Option XmlErr × List Suppr
+  | [], l => (none, l)
+  | s :: r, l =>
+    match addSuppression l s with
+    | (.ok, l') => addSeqX r l'
+    | (e, l') => (some (.add e), l')
 
 /-! ### inline comments -/
 
